@@ -5,5 +5,6 @@ CONSTANTS
   MaxMut = 2
   MaxTrav = 1
 CONSTRAINT Bound
+CONSTANT HiddenSets <- SomeHidden
 VIEW MCView
-INVARIANTS TypeOK ExactlyOnceNoMutation StableExactlyOnce StrictlyIncreasing NoDuplicates EndsWithEmptyCursor BadCursorRejected PageShape IndexFresh ProbesOK
+INVARIANTS TypeOK HiddenNeverSeen ExactlyOnceNoMutation StableExactlyOnce StrictlyIncreasing NoDuplicates EndsWithEmptyCursor BadCursorRejected PageShape IndexFresh ProbesOK WalkOK
